@@ -21,7 +21,8 @@ RULE = ('cases: (a) seeded scripts: 1-8 systems with start in [-6,12], frequency
         '(so end<start occurs), registered/removed at chunk boundaries during timesteps 0..~60, advanced by a random mix of '
         'execute(), execute(n<=6) and systems.execute_systems(), each replayed one step at a time on a twin model, with '
         'invalid-n probes at random states; (b) clock-warp scripts crossing sys.maxsize; (c) every (start,end,frequency) of '
-        'a box with one system over timesteps 0..T (exhaustive). Oracle per (t, system): ran exactly once iff registered and '
+        'a box with one system over timesteps 0..T (exhaustive); (d) spawner scripts: a highest-priority system registers/removes '
+        'windowed systems in the middle of multi-step calls (the system added at t may run 0/1 times at t). Oracle per (t, system): ran exactly once iff registered and '
         'start<=t<=end and (t-start)%frequency==0. Non-trivial script: contains a window with negative start or end<start or '
         'late registration AND a multi-step call; distinct by (windows, chunking) signature.')
 ASSUMPTIONS = ['systems only log (timestep, id) in execute()', 'clock-warp cases assign SystemManager.timestep (documented attribute)',
@@ -29,7 +30,8 @@ ASSUMPTIONS = ['systems only log (timestep, id) in execute()', 'clock-warp cases
                'rejecting non-integers and n<1)']
 FLOORS = {'quick': {'decisions_ran': 5000, 'decisions_not_ran': 5000, 'multi_step_calls': 1000, 'rejected_n_value': 300,
                     'rejected_n_type': 300, 'windows_negative_start': 300, 'windows_end_before_start': 100,
-                    'late_registrations': 300, 'warp_cases': 20, 'box_windows': 200,
+                    'late_registrations': 300, 'warp_cases': 20, 'box_windows': 200, 'spawn_cases': 200,
+                    'mid_step_registry_changes': 1000,
                     'reach:Core.Model.execute': 1000, 'reach:Core.SystemManager.execute_systems': 5000},
           'thorough': {'decisions_ran': 500000, 'decisions_not_ran': 500000, 'multi_step_calls': 100000,
                        'rejected_n_value': 30000, 'rejected_n_type': 30000, 'box_windows': 1000}}
@@ -194,6 +196,89 @@ def case_script(ctx, case):
                     'chunks': chunks[:30], 'final_t': t, 'log_len': len(log)})
 
 
+def case_spawn(ctx, case):
+    """Systems registered / removed by another system in the middle of multi-step calls: execute(n) must still be n single
+    steps.  The spawner has the highest priority, so a system it removes at t has not had its turn at t (must not run at t);
+    a system it adds at t may run 0 or 1 times at t (left open by C05) and follows its window from t+1 on."""
+    rng = ctx.rng('spawn', case['i'])
+    core, WinSystem = _fixtures()
+
+    class Spawner(core.System):
+        def __init__(self, model, script, objs):
+            super().__init__('spawner', model, priority=100)
+            self.script, self.objs = script, objs
+
+        def execute(self):
+            for kind, wid in self.script.get(self.model.systems.timestep, ()):
+                if kind == 'add':
+                    self.model.systems.add_system(self.objs[wid])
+                else:
+                    self.model.systems.remove_system(wid)
+
+    model, twin = core.Model(), core.Model()
+    log, tlog = [], []
+    wins = {}
+    for j in range(rng.randint(2, 6)):
+        start = rng.randint(-4, 8)
+        wins[f'w{j}'] = {'id': f'w{j}', 'start': start, 'end': sys.maxsize if rng.random() < 0.5 else start + rng.randint(0, 25),
+                         'freq': rng.randint(1, 4), 'prio': rng.randint(-2, 2)}
+    total = rng.randint(25, 50)
+    script, state = {}, {wid: False for wid in wins}
+    for t in range(total):
+        for wid in wins:
+            if rng.random() < 0.08:
+                script.setdefault(t, []).append(('remove' if state[wid] else 'add', wid))
+                state[wid] = not state[wid]
+    objs = {wid: WinSystem(wid, model, log, priority=w['prio'], frequency=w['freq'], start=w['start'], end=w['end']) for wid, w in wins.items()}
+    tobjs = {wid: WinSystem(wid, twin, tlog, priority=w['prio'], frequency=w['freq'], start=w['start'], end=w['end']) for wid, w in wins.items()}
+    model.systems.add_system(Spawner(model, script, objs))
+    twin.systems.add_system(Spawner(twin, script, tobjs))
+    t, chunks = 0, []
+    while t < total:
+        n = rng.choice([1, 2, 3, 4, 5, 6, 8])
+        n = min(n, total - t)
+        if n == 1:
+            model.execute()
+        else:
+            model.execute(n)
+            ctx.count('multi_step_calls')
+        for _ in range(n):
+            twin.execute()
+        chunks.append(n)
+        t += n
+        check_clocks(model, t, f'after execute({n}) with a spawner')
+        check_clocks(twin, t, 'twin with a spawner')
+    registered = set()
+    for tt in range(total):
+        ev = script.get(tt, ())
+        removed = {wid for k, wid in ev if k == 'remove'}
+        added = {wid for k, wid in ev if k == 'add'}
+        mandatory = Counter((tt, wid) for wid in registered - removed if should_run(wins[wid], tt))
+        for name, lg in (('execute(n) run', log), ('single-step twin', tlog)):
+            got = Counter(e for e in lg if e[0] == tt)
+            opt = Counter({e: c for e, c in got.items() if e[1] in added})
+            ctx.ev()
+            if any(c > 1 for c in opt.values()) or any(not should_run(wins[e[1]], tt) for e in opt):
+                raise CaseViolation(f'{name}: a system registered mid-step at t={tt} ran more than once or outside its window',
+                                    observed=sorted(got.elements()), script=script.get(tt))
+            if got - opt != mandatory:
+                raise CaseViolation(f'{name}: executions at t={tt} differ from the window predicate (systems registered/removed by a system '
+                                    f'during a multi-step advance)', missing=sorted((mandatory - (got - opt)).elements()),
+                                    extra=sorted(((got - opt) - mandatory).elements()), chunks=chunks, events={k: v for k, v in script.items() if k <= tt},
+                                    windows=list(wins.values()))
+        ctx.count('decisions_ran', sum(mandatory.values()))
+        ctx.count('decisions_not_ran', len(registered - removed) - sum(mandatory.values()))
+        if ev:
+            ctx.count('mid_step_registry_changes', len(ev))
+        registered = (registered - removed) | added
+    check(log == tlog, 'execute(n) with systems registered/removed mid-call is not equivalent to n single steps',
+          multi=log[:60], singles=tlog[:60], chunks=chunks)
+    ctx.count('spawn_cases')
+    ctx.distinct(('spawn', tuple(sorted((k, tuple(v)) for k, v in script.items())), tuple(chunks)))
+    if case['i'] < 1:
+        ctx.sample({'kind': 'spawner script', 'windows': list(wins.values()), 'events': {str(k): v for k, v in script.items()}, 'chunks': chunks})
+
+
 def case_warp(ctx, case):
     """Cross the default end (sys.maxsize): t = maxsize runs, maxsize+1 does not."""
     rng = ctx.rng('warp', case['i'])
@@ -246,7 +331,7 @@ def case_box(ctx, case):
 
 
 def run_case(ctx, case):
-    {'script': case_script, 'warp': case_warp, 'box': case_box}[case['kind']](ctx, case)
+    {'script': case_script, 'warp': case_warp, 'box': case_box, 'spawn': case_spawn}[case['kind']](ctx, case)
 
 
 def run(ctx):
@@ -264,6 +349,9 @@ def run(ctx):
     for i in range(N_SCRIPTS[ctx.tier]):
         if ctx.mine(i) and not ctx.full():
             ctx.run_case({'kind': 'script', 'i': i}, run_case)
+    for i in range(N_SCRIPTS[ctx.tier] // 3):
+        if ctx.mine(i) and not ctx.full():
+            ctx.run_case({'kind': 'spawn', 'i': i}, run_case)
     ctx.sample({'kind': 'box', 'starts': [b['starts'][0], b['starts'][-1]], 'ends_rel_start': [b['ends'][0], b['ends'][-1], 'forever'],
                 'freqs': [b['freqs'][0], b['freqs'][-1]], 'T': b['T']})
 
